@@ -9,7 +9,7 @@ Trace == ndJsonDeserialize(IOEnv.TRACE_FILE)
 Ok(b, name) == IF b THEN "ok" ELSE name
 FirstBad(seq) == IF \E i \in DOMAIN seq : seq[i] # "ok"
                  THEN seq[CHOOSE i \in DOMAIN seq : seq[i] # "ok" /\ \A j \in 1..(i - 1) : seq[j] = "ok"] ELSE "ok"
-HasParent(p) == p[1] # ""
+HasParent(p) == p[1] # "" \/ Len(p) >= 3      \* a parent without an id (third field: its kind) is a parent too
 (* coverage multiplicity of every parent position *)
 Cover(l, p) == Cardinality({i \in DOMAIN l[1] : p \in BlockPos(l[1][i])})
 NoSelfOv(a, b) == ~SelfOverlap(a) /\ ~SelfOverlap(b)
